@@ -225,7 +225,8 @@ def routing_px(ctx, prog, xty, n, path):
             if out.kind == 'panic':
                 site = getattr(out, 'site', None)
                 ctx.finding('PANIC', *(site_key(site) if site else (path, 'panic')),
-                            '%s<%d>::to_f64 panics on regime cell %s: %s at %s' % (xty.name, n, cname, out.value, out.where))
+                            '%s<%d>::to_f64 panics on regime cell %s: %s at %s' % (xty.name, n, cname, out.value, out.where),
+                            alt=('PANIC@', '%s<N>::to_f64' % xty.name, site_key(site)[1]) if site else None)
                 continue
             if r is None or any(b is None for b in rules_routing.sym_msb_first(r)):
                 ctx.count('routing_cells_undecided')
